@@ -245,6 +245,17 @@ class Tr:
             kind = self.scalar_kind(f.sub_fields[0], what + "{}")
         else:
             self.die(f"{what}: shape {f.shape}")
+        if "KInt false" in kind:
+            # Parse.v: a non-strict int takes a whole number in any spelling and rejects one with a fractional
+            # part (pydantic alone would truncate it).  Probed on the live field, pre-validators included.
+            for probe in (1.5, -0.25, Decimal("2.5")):
+                v = [probe] if (f.shape == pf.SHAPE_LIST or "UList" in kind) else probe
+                try:
+                    val, err = f.validate(v, {}, loc=f.alias, cls=cls)
+                except Exception as e:  # noqa: BLE001
+                    self.die(f"{what}: probing with {v!r} raised {type(e).__name__}: {e}")
+                if not err:
+                    self.die(f"{what}: the number {v!r} is accepted for an integer field and becomes {val!r} (the model rejects a fractional number)")
         return f"mkField {q(f.name)} {q(f.alias)} {b(f.required)} ({shape}) ({kind})"
 
     # ---- metadata
